@@ -9,10 +9,10 @@ from props import _mps_trace as T
 from vlib import common
 from vlib.coqparse import parse
 
-OCC_TOL = 2e-3   # calibrated: correct code gives <= 2e-5 on these problem families (dt*|H| <= 0.3)
-EN_TOL = 5e-3
+OCC_TOL = 2e-4   # calibrated: correct code gives <= 1.4e-5 (occupations, correlations) over 1350 thorough cases (dt*|H| <= 0.3)
+EN_TOL = 1e-3    # times max(1, n); correct code gives <= 2.1e-4 absolute over 1350 thorough cases
 M2_TOL = 5e-3   # relative to max(1, <H^2>); correct code gives <= 1e-5 (MPO @ MPO compression at the default precision)
-FID_TOL = 2e-3
+FID_TOL = 2e-4   # correct code: <= 2.5e-6
 
 
 def run_loop_shape(ctx):
@@ -197,6 +197,7 @@ def e2e_stage(ctx, n_cases):
             continue
         m = max(e["occ_err"] for e in errs)
         worst = max(worst, m)
+        ctx.extra["e2e_worst_energy_error"] = max(ctx.extra.get("e2e_worst_energy_error", 0.0), max(e["en_err"] for e in errs))
         extra_bad = [(k2, e[k2]) for e in errs for k2, tol in (("corr_err", OCC_TOL), ("m2_err", M2_TOL), ("var_err", M2_TOL),
                                                               ("fid_err", FID_TOL)) if e.get(k2, 0.0) > tol]
         for k2 in ("corr_err", "m2_err", "var_err", "fid_err"):
